@@ -260,7 +260,7 @@ func (l *sse) all() []string {
 func runC20(c *runCtx) {
 	n := 400
 	if c.tier == "thorough" {
-		n = 20000
+		n = 5000
 	}
 	srv := NewServer(filepath.Join(c.scratch, "main"))
 	defer srv.Close()
@@ -604,7 +604,7 @@ func runC20(c *runCtx) {
 	// Every message received must be well-formed and be the message of exactly one task and counter.
 	bursts := 32
 	if c.tier == "thorough" {
-		bursts = 480
+		bursts = 240
 	}
 	for b := 0; b < bursts; b++ {
 		if b%c.nshards != c.shard {
